@@ -7,6 +7,7 @@ import (
 	"runtime"
 	"sort"
 	"strings"
+	"sync"
 	"sync/atomic"
 	"time"
 
@@ -68,7 +69,8 @@ func genScene(r *rand.Rand, budget int, maxFields int) *scene {
 	for {
 		// cutoffs above 0 too: C10 is about equality, not closedness (unwritten cells hold 0 and
 		// are then "inside")
-		sc := &scene{CPU: []float64{4, 5, 8, 10, 16}[r.Intn(5)], Cutoff: []float64{0, 0, 0, -0.05, -0.2, 0.3, 0.5}[r.Intn(7)]}
+		// cubes per unit: powers of two, and plenty of values whose reciprocal is inexact
+		sc := &scene{CPU: []float64{4, 8, 16, 3, 5, 6, 7, 10, 12, 20, 49, 100, 2.5, 7.3, 5, 10}[r.Intn(16)], Cutoff: []float64{0, 0, 0, -0.05, -0.2, 0.3, 0.5}[r.Intn(7)]}
 		// aligned scenes: the canvas bounds of the domains (floor(min*cpu)-1, ceil(max*cpu)+1)
 		// are placed exactly on, one below or one above a multiple of the block size
 		sc.Aligned = r.Intn(2) == 0
@@ -352,6 +354,79 @@ type probe struct {
 	atReturn         [8]int64
 	inflightAtReturn [8]int32
 	calls            int
+	// sample positions: the sequential adder's probe records lattice index -> position bits
+	// (single goroutine); a parallel adder's probe looks every sample up there (the map is
+	// read-only by then) and remembers the first position that is not bit-identical
+	record  bool
+	samples map[[3]int32]*posEntry
+	ref     *probe
+	slot    int // which hit flag of the reference's entries this probe sets (0 or 1)
+	both    int64
+	onlyPar int64
+	posBad  int64
+	badMu   sync.Mutex
+	badMsg  string
+}
+
+type posEntry struct {
+	bits [3]uint64
+	hit  [2]int32
+}
+
+func (p *probe) sample(v vector3.Float64) {
+	idx := [3]int32{int32(math.Round(v.X() * p.cpu)), int32(math.Round(v.Y() * p.cpu)), int32(math.Round(v.Z() * p.cpu))}
+	bits := [3]uint64{math.Float64bits(v.X()), math.Float64bits(v.Y()), math.Float64bits(v.Z())}
+	if p.record {
+		if p.samples == nil {
+			p.samples = map[[3]int32]*posEntry{}
+		}
+		if e := p.samples[idx]; e == nil {
+			p.samples[idx] = &posEntry{bits: bits}
+		} else if e.bits != bits && p.badMsg == "" {
+			p.posBad++
+			p.badMsg = fmt.Sprintf("lattice point %v was handed to the field functions at two different positions by the sequential adder itself", idx)
+		}
+		return
+	}
+	if p.ref == nil {
+		return
+	}
+	e := p.ref.samples[idx]
+	if e == nil {
+		atomic.AddInt64(&p.onlyPar, 1)
+		return
+	}
+	atomic.AddInt64(&p.both, 1)
+	atomic.StoreInt32(&e.hit[p.slot], 1)
+	if e.bits != bits {
+		if atomic.AddInt64(&p.posBad, 1) == 1 {
+			p.badMu.Lock()
+			p.badMsg = fmt.Sprintf("lattice point %v (cubes per unit %v): the sequential AddField hands the field function the position (%.17g, %.17g, %.17g), this adder hands it (%.17g, %.17g, %.17g) [bits %016x %016x %016x vs %016x %016x %016x]",
+				idx, p.cpu, math.Float64frombits(e.bits[0]), math.Float64frombits(e.bits[1]), math.Float64frombits(e.bits[2]), v.X(), v.Y(), v.Z(), e.bits[0], e.bits[1], e.bits[2], bits[0], bits[1], bits[2])
+			p.badMu.Unlock()
+		}
+	}
+}
+
+// positions reports this (parallel) probe's comparison with the sequential samples.
+func (p *probe) positions(res *run.Result, site, input string, wit any) {
+	both, only, bad := atomic.LoadInt64(&p.both), atomic.LoadInt64(&p.onlyPar), atomic.LoadInt64(&p.posBad)
+	res.Count("field_sample_positions_compared", both)
+	res.Count("lattice_points_sampled_by_both", both)
+	res.Count("lattice_points_only_parallel", only)
+	notHit := 0
+	for _, e := range p.ref.samples {
+		if atomic.LoadInt32(&e.hit[p.slot]) == 0 {
+			notHit++
+		}
+	}
+	res.Count("lattice_points_only_sequential", int64(notHit))
+	if bad > 0 {
+		p.badMu.Lock()
+		msg := p.badMsg
+		p.badMu.Unlock()
+		res.Violate("sample-position-differs", site, input, fmt.Sprintf("%d of %d samples at lattice points that both adders sample are not bit-identical; first: %s", bad, both, msg), wit)
+	}
 }
 
 // returned is called by the harness right after Add* call number i returned.
@@ -384,6 +459,7 @@ func (p *probe) enter(v vector3.Float64, call int) {
 		}
 	}
 	atomic.AddInt64(&p.evals, 1)
+	p.sample(v)
 	bx := int(math.Floor(v.X()*p.cpu/blockCells)) - p.anchor[0] + 3
 	by := int(math.Floor(v.Y()*p.cpu/blockCells)) - p.anchor[1] + 3
 	bz := int(math.Floor(v.Z()*p.cpu/blockCells)) - p.anchor[2] + 3
@@ -476,6 +552,20 @@ func (fd *fieldDesc) function(cpu float64, ai int, pr *probe, call int, attr str
 		}
 	case "pf-combine", "pf-multiline", "pf-varline", "pf-stress", "pf-seam-sphere", "pf-seam-box":
 		f = fd.base
+	case "tie-sphere":
+		// world-space sphere with integer centre and radius: lattice points lie EXACTLY on it
+		cx, cy, cz, rw := fd.C[0]/cpu, fd.C[1]/cpu, fd.C[2]/cpu, fd.R[0]/cpu
+		f = func(v vector3.Float64) float64 {
+			dx, dy, dz := v.X()-cx, v.Y()-cy, v.Z()-cz
+			return math.Sqrt(dx*dx+dy*dy+dz*dz) - rw
+		}
+	case "tie-box":
+		// grid-aligned box with integer centre and half sizes
+		cx, cy, cz := fd.C[0]/cpu, fd.C[1]/cpu, fd.C[2]/cpu
+		hx, hy, hz := fd.R[0]/cpu, fd.R[1]/cpu, fd.R[2]/cpu
+		f = func(v vector3.Float64) float64 {
+			return math.Max(math.Abs(v.X()-cx)-hx, math.Max(math.Abs(v.Y()-cy)-hy, math.Abs(v.Z()-cz)-hz))
+		}
 	case "seam-blob":
 		C, R := fd.C, fd.R
 		f = func(v vector3.Float64) float64 {
@@ -852,7 +942,9 @@ func (sc *scene) inputClass() string {
 // is a lattice field (values are multiples of 0.5) and the cutoff is 0: distinct marched
 // vertices are then >= 1/18 cell (>= 0.0034 world units at 16 cubes per unit) apart, more
 // than a weld cell, so a weld cell never merges two different vertices.
-func (sc *scene) tight(attr string) bool { return sc.latticeOnly[attr] && sc.Cutoff == 0 }
+func (sc *scene) tight(attr string) bool {
+	return sc.latticeOnly[attr] && sc.Cutoff == 0 && sc.CPU <= 16
+}
 
 // manyBlockCases: the first cases of the field phase (so that they start first and overlap
 // with the rest) are the many-blocks sub-population.
@@ -1042,7 +1134,7 @@ func seamCases(tier string) int {
 // extreme sits inside the seam layer (cutoff taken into account), plus an ordinary larger
 // ellipsoid inside the anchor block. All axes; cutoffs 0 and -0.1.
 func genSeamScene(r *rand.Rand) *scene {
-	sc := &scene{CPU: []float64{4, 5, 8, 10}[r.Intn(4)], Cutoff: []float64{0, -0.1}[r.Intn(2)], Attrs: attrPalette[:1]}
+	sc := &scene{CPU: []float64{4, 5, 8, 10, 7, 12}[r.Intn(6)], Cutoff: []float64{0, -0.1}[r.Intn(2)], Attrs: attrPalette[:1]}
 	for a := 0; a < 3; a++ {
 		sc.Anchor[a] = r.Intn(4) - 1
 	}
@@ -1102,6 +1194,48 @@ func genSeamScene(r *rand.Rand) *scene {
 		big.P[i] = r.Float64()
 	}
 	sc.Fields = append(sc.Fields, big)
+	sc.derive()
+	return sc
+}
+
+// tieCases: exact-tie scenes (after the seam cases).
+func tieCases(tier string) int {
+	if tier == "thorough" {
+		return 15
+	}
+	return 3
+}
+
+// genTieScene: a unit-ish sphere (harness closure or polyform's own marching.Sphere) or a
+// grid-aligned box with INTEGER world centre and radius / half sizes at 49, 10 or 7 cubes per
+// unit (inexact reciprocals): lattice points lie exactly on the cutoff-0 surface, so a sample
+// position that is one ulp off flips their classification. All adders must classify alike.
+func genTieScene(r *rand.Rand, k int) *scene {
+	cpu := []float64{49, 10, 7}[k%3]
+	kind := []string{"tie-sphere", "pf-seam-sphere", "tie-box"}[(k+k/3)%3]
+	sc := &scene{CPU: cpu, Cutoff: 0, Attrs: attrPalette[:1]}
+	fd := fieldDesc{Kind: kind, Salt: r.Uint32(), Yield: 0xffffffff, Attrs: attrPalette[:1]}
+	rad := 1
+	if cpu < 49 {
+		rad = 1 + r.Intn(3)
+	}
+	for a := 0; a < 3; a++ {
+		c := r.Intn(3) - 1 // integer world coordinate: negative, zero, positive
+		h := rad
+		if kind == "tie-box" && cpu < 49 {
+			h = 1 + r.Intn(3)
+		}
+		fd.C[a], fd.R[a] = float64(c)*cpu, float64(h)*cpu
+		fd.Lo[a], fd.Hi[a] = fd.C[a]-fd.R[a]-3.5, fd.C[a]+fd.R[a]+3.5
+		sc.Anchor[a] = int(math.Floor(fd.C[a] / blockCells))
+	}
+	if kind != "tie-box" {
+		fd.R[1], fd.R[2] = fd.R[0], fd.R[0]
+		for a := 0; a < 3; a++ {
+			fd.Lo[a], fd.Hi[a] = fd.C[a]-fd.R[a]-3.5, fd.C[a]+fd.R[a]+3.5
+		}
+	}
+	sc.Fields = []fieldDesc{fd}
 	sc.derive()
 	return sc
 }
@@ -1261,9 +1395,13 @@ func fieldCase(c *run.Ctx) run.Result {
 		budget = 16
 	}
 	var sc *scene
-	if c.Case < manyBlockCases(c.Tier)+historyCases(c.Tier)+pfStressCases(c.Tier)+seamCases(c.Tier) {
+	special := manyBlockCases(c.Tier) + historyCases(c.Tier) + pfStressCases(c.Tier)
+	if c.Case < special+seamCases(c.Tier) {
 		sc = genSeamScene(r)
 		res.Count("field_seam_layer_scenes", 1)
+	} else if c.Case < special+seamCases(c.Tier)+tieCases(c.Tier) {
+		sc = genTieScene(r, c.Case-special-seamCases(c.Tier))
+		res.Count("field_exact_tie_scenes", 1)
 	} else {
 		sc = genScene(r, budget, 3)
 	}
@@ -1272,16 +1410,20 @@ func fieldCase(c *run.Ctx) run.Result {
 	c.Note("scene " + sc.sig())
 	input := sc.inputClass()
 
-	prSeq := &probe{cpu: sc.CPU, anchor: sc.Anchor}
+	prSeq := &probe{cpu: sc.CPU, anchor: sc.Anchor, record: true}
 	cSeq, p := sc.fill(addSeq, prSeq)
 	if p != nil {
 		res.Inconclusive = "reference: AddField panicked: " + p.Value
 		return res
 	}
-	prPar := &probe{cpu: sc.CPU, anchor: sc.Anchor}
+	if prSeq.badMsg != "" {
+		res.Inconclusive = "reference: " + prSeq.badMsg
+		return res
+	}
+	prPar := &probe{cpu: sc.CPU, anchor: sc.Anchor, ref: prSeq, slot: 0}
 	c.Note("AddFieldParallel")
 	cPar, pp := sc.fill(addPar, prPar)
-	prPar2 := &probe{cpu: sc.CPU, anchor: sc.Anchor}
+	prPar2 := &probe{cpu: sc.CPU, anchor: sc.Anchor, ref: prSeq, slot: 1}
 	c.Note("AddFieldParallel2")
 	cPar2, pp2 := sc.fill(addPar2, prPar2)
 	if pp != nil {
@@ -1289,6 +1431,17 @@ func fieldCase(c *run.Ctx) run.Result {
 	}
 	if pp2 != nil {
 		res.Violate("runtime-panic", adderSite[addPar2], input, "AddField returned normally on the same scene; AddFieldParallel2 panicked: "+pp2.Value+"\n"+pp2.Stack, sc.witness())
+	}
+	// the positions the library hands to the field functions: bit-identical to the sequential
+	// adder's at every lattice point both sample
+	if pp == nil {
+		prPar.positions(&res, adderSite[addPar], input, sc.witness())
+	}
+	if pp2 == nil {
+		prPar2.positions(&res, adderSite[addPar2], input, sc.witness())
+	}
+	if sc.CPU != math.Exp2(math.Round(math.Log2(sc.CPU))) {
+		res.SetAdd("field_cpu_values_with_inexact_reciprocal", fmt.Sprint(sc.CPU))
 	}
 	// number of field-function evaluations: evidence only (the property states result equality
 	// for field accumulation, not a visitation count)
@@ -1450,8 +1603,14 @@ func fieldRace(c *run.Ctx) run.Result {
 	input := sc.inputClass()
 	res.SetAdd("race_gomaxprocs", fmt.Sprint(runtime.GOMAXPROCS(0)))
 	res.SetAdd("gomaxprocs", fmt.Sprint(runtime.GOMAXPROCS(0)))
-	prA := &probe{cpu: sc.CPU, anchor: sc.Anchor}
-	prB := &probe{cpu: sc.CPU, anchor: sc.Anchor}
+	// a sequential fill (not marched) records the reference sample positions
+	prS := &probe{cpu: sc.CPU, anchor: sc.Anchor, record: true}
+	if _, p := sc.fill(addSeq, prS); p != nil {
+		res.Inconclusive = "reference: AddField panicked: " + p.Value
+		return res
+	}
+	prA := &probe{cpu: sc.CPU, anchor: sc.Anchor, ref: prS, slot: 0}
+	prB := &probe{cpu: sc.CPU, anchor: sc.Anchor, ref: prS, slot: 1}
 	tris := 0
 	attr := modeling.PositionAttribute
 	var sets []*triSet
@@ -1497,6 +1656,7 @@ func fieldRace(c *run.Ctx) run.Result {
 		how adder
 		pr  *probe
 	}{{addPar, prA}, {addPar2, prB}} {
+		v.pr.positions(&res, adderSite[v.how], input, sc.witness())
 		if l := v.pr.late(); l != "" {
 			res.Violate("returns-before-done", adderSite[v.how], input,
 				adderSite[v.how]+" returned while its work was still going on: "+l, sc.witness())
